@@ -1544,5 +1544,27 @@ def h_det(a, **kw):
             + m[0, 2] * (m[1, 0] * m[2, 1] - m[1, 1] * m[2, 0]))
 
 
+def h_isclose(a, b, rtol=1e-05, atol=1e-08, equal_nan=False):
+    """np.isclose on exact scalars: |a - b| <= atol + rtol * |b|"""
+    if isinstance(a, SArray) or isinstance(b, SArray):
+        raise OutsideModel("np.isclose on symbolic arrays")
+    a, b = SRl.of(a), SRl.of(b)
+    d = a.r - b.r
+    ad = z3.If(d >= 0, d, -d)
+    ab = z3.If(b.r >= 0, b.r, -b.r)
+    return SBool(ad <= SRl.of(atol).r + SRl.of(rtol).r * ab)
+
+
+def _scalar_array_function(self, func, types, args, kwargs):
+    h = HANDLERS.get(func.__name__)
+    if h is None:
+        raise OutsideModel(f"numpy.{func.__name__} on a symbolic scalar")
+    return h(*args, **kwargs)
+
+
+for _cls in (SRl, SDy, SIV):
+    _cls.__array_function__ = _scalar_array_function
+
 HANDLERS["dot"] = h_dot_real
 HANDLERS["det"] = h_det
+HANDLERS["isclose"] = h_isclose
